@@ -550,6 +550,35 @@ def _construction(rep: ModelReport, it, DL, methods, evaluate, els: List[El]) ->
             rep.cases += 1
             if r[0] != "value" or same(dl, cur + extra):
                 rep.bad("_extend_nocheck", f"_extend_nocheck({extra!r}) on {cur!r}: {r if r[0] != 'value' else same(dl, cur + extra)}")
+        # ... handed over as a one-shot iterator (callers pass generator expressions)
+        for extra in ([El("x"), El("y")], [El("z")]):
+            dl, cur = _state_from(DL, els)
+            r = evaluate(dl, "_extend_nocheck", [iter(list(extra))])
+            rep.cases += 1
+            if r[0] != "value" or same(dl, cur + extra):
+                rep.bad("_extend_nocheck", f"_extend_nocheck(<iterator over {extra!r}>) on {cur!r}: {r if r[0] != 'value' else same(dl, cur + extra)}")
+    if "extend" in methods:
+        dl, cur = _state_from(DL, els)
+        extra = [El("x"), El("y")]
+        r = evaluate(dl, "extend", [iter(list(extra))])
+        rep.cases += 1
+        if r[0] != "value" or same(dl, cur + extra):
+            rep.bad("extend", f"extend(<iterator over {extra!r}>) on {cur!r}: {r if r[0] != 'value' else same(dl, cur + extra)}")
+    # sort through every argument of its signature: whatever the order, the index follows the elements
+    if "sort" in methods and len(els) > 1:
+        by_id_desc = lambda x, y: (x.id < y.id) - (x.id > y.id)  # noqa: E731
+        for label, a, k in (("sort(cmp=<descending ids>)", [], {"cmp": by_id_desc}), ("sort(<descending ids>) (positional)", [by_id_desc], {}),
+                            ("sort(key=<reversed id>)", [], {"key": lambda x: x.id[::-1]}), ("sort(key=<reversed id>, reverse=True)", [], {"key": lambda x: x.id[::-1], "reverse": True})):
+            dl, cur = _state_from(DL, els)
+            r = evaluate(dl, "sort", list(a), dict(k))
+            rep.cases += 1
+            now = list(list.__iter__(dl))
+            if r[0] != "value":
+                rep.bad("sort", f"{label} on {cur!r}: {r}")
+            elif sorted(now, key=id) != sorted(cur, key=id):
+                rep.bad("sort", f"{label} on {cur!r} changes the elements: {now!r}")
+            elif same(dl, now):
+                rep.bad("sort", f"{label} on {cur!r}: {same(dl, now)}")
     # sort with the documented options
     if "sort" in methods and len(els) > 1:
         dl, cur = _state_from(DL, els)
